@@ -84,7 +84,8 @@ type DocSpec struct {
 
 // Op is one step of the history.
 type Op struct {
-	// Kind: update | delete | deliver
+	// Kind: update | delete | deliver | kwrite (the key-less node 2 writes Set[0], a field that is
+	// encrypted field by field, of a document in mode "fields"; skipped otherwise)
 	Kind string `json:"kind"`
 	Doc  int    `json:"doc"`
 	// Node: writer (0 creator, 1 key-holding peer) for update/delete, receiver (1 key-holding, 2 key-less) for deliver
@@ -433,6 +434,25 @@ func drawCase(t *rapid.T, avoidDocLate, avoidFieldLate bool) Case {
 			}
 		}
 		c.Ops = append(c.Ops, op)
+		// the key-less node writes an encrypted field of a field-level document, then (mostly) a key
+		// holder writes the same field: its new value has a clear head below it and must stay encrypted
+		if d := c.Docs[op.Doc%nd]; d.Mode == "fields" && op.Kind == "update" && rapid.IntRange(0, 3).Draw(t, "kwrite") == 0 {
+			var regs []string
+			for _, f := range d.EncFields {
+				if !isCounter(f) && fieldKind[f] != "flt" {
+					regs = append(regs, f)
+				}
+			}
+			if len(regs) > 0 {
+				f := rapid.SampledFrom(regs).Draw(t, "kf")
+				route := rapid.SampledFrom([]string{"api", "gql"}).Draw(t, "kroute")
+				c.Ops = append(c.Ops, Op{Kind: "kwrite", Doc: op.Doc, Node: 2, Route: route, Set: []FieldVal{{F: f, V: g.make(f, seed("kv"), route == "gql")}}})
+				if rapid.IntRange(0, 3).Draw(t, "kfollow") > 0 {
+					w := rapid.SampledFrom([]int{0, 0, 1}).Draw(t, "kwriter")
+					c.Ops = append(c.Ops, Op{Kind: "update", Doc: op.Doc, Node: w, Route: "api", Set: []FieldVal{{F: f, V: g.make(f, seed("kv2"), false)}}})
+				}
+			}
+		}
 	}
 
 	// generator switches of the known findings (search past a defect): a field of an
